@@ -16,7 +16,7 @@
  the files on disk — build-time data produced by the rust-embed derive.
 """
 import os
-from ..terms import get_tracer, short, walk, fmt
+from ..terms import get_tracer, short, walk, fmt, strip
 from ..inter import Inter
 from ..panics import Discharger, load_records, norm
 from ..pathrules import sname, peel
@@ -108,7 +108,7 @@ def run(facts, rep, tier, ctx):
     for ob_ in scr3.obligations:
         d3 = ob_["key"].split("|")[2]
         # (and the root is refused like every other directory: by the backend, as not-supported — not by the path type)
-        if d3.startswith("remove_dir_all") or "is answered because of the filesystem's state" in d3:
+        if d3.startswith("remove_dir_all") or "is answered because of the filesystem's state" in d3 or "refuses nothing but an existing destination" in d3:
             n += 1
             rep.ob("R18.1", ob_["fn"], d3, ob_["ok"], ob_["detail"], ob_["loc"])
     # ... and the composite moves do not turn the backend's refusal into success: the only error kind they swallow is the
@@ -331,6 +331,22 @@ def run(facts, rep, tier, ctx):
                             st_.rv.agg["variant"] == "FileNotFound":
                         gs = D.guards(cb, blk.idx)
                         miss = False
+                        # `lookup(..).ok_or_else(|| FileNotFound.into())` / `.ok_or(..)`: the kind is built in the closure that runs on the
+                        # None side of the lookup
+                        if cb.kind == "Closure" and cb.parent:
+                            pb_ = facts.body(cb.parent)
+                            if pb_ is not None:
+                                ptr_ = get_tracer(facts, pb_)
+                                for pblk in pb_.calls():
+                                    if short(pblk.term.callee() or "") in ("Option::ok_or_else", "Option::ok_or") and len(pblk.term.args) == 2:
+                                        ca_ = strip(ptr_.operand(pblk.term.args[1]))
+                                        if ca_[0] == "closure" and ca_[1] == cb.id:
+                                            r_ = norm(ptr_.operand(pblk.term.args[0]))
+                                            while r_[0] == "call" and r_[1] in ("Option::map", "Option::cloned", "Option::copied", "Option::as_ref") and r_[2]:
+                                                r_ = norm(r_[2][0])
+                                            if r_[0] == "call" and (r_[1] in ("HashMap::get",) or str(r_[1]).endswith("RustEmbed::get")):
+                                                miss = True
+                                                gs = list(gs) + [g for g in D.guards(pb_, pblk.idx) if g not in gs]
                         for g in gs:
                             t = peel(g[1])
                             is_lookup = t[0] == "call" and (t[1] in ("HashMap::get", "HashMap::contains_key") or str(t[1]).endswith("RustEmbed::get"))
